@@ -583,7 +583,7 @@ func (obj *Flavor) LoadForm() slip.Object {
 			df = append(df, append(slip.List{slip.Symbol(":settable-instance-variables")}, sets...))
 		}
 	}
-	if 0 < len(obj.keywords) {
+	if 0 < len(obj.keywords) || obj.allowOtherKeys {
 		kws := make([]string, 0, len(obj.keywords))
 		for k := range obj.keywords {
 			kws = append(kws, k)
